@@ -208,6 +208,39 @@ def check_lock_pair(run, repo, world, fns):
                    "acquire/release of transaction_lock must both be guarded "
                    "by `not in_transaction`", where(mod, F.fn))
     run.floor("functions managing transaction_lock", npair, 5)
+    # one hold of the lock per sequence: after a release nothing more of
+    # the sequence is transmitted (no release / re-acquire in the middle)
+    for F in sorted(fns.values(), key=lambda f: f.q):
+        if F.name != "run_sequence":
+            continue
+        mod = repo.mod(F.cls.mod)
+        sends = [n for n in F.cfg.reachable if n.ast is not None and
+                 n.kind == "stmt" and ("seq.send(" in unparse(n.ast, 400) or
+                                       "seq.throw(" in unparse(n.ast, 400))]
+        if not sends:
+            continue
+        sid = {n.id for n in sends}
+        bad = None
+        for n in F.cfg.reachable:
+            if not any(k == "release" and ln == TL
+                       for (k, ln) in lock_events(n)):
+                continue
+            seen, stack = set(), [m for (l, m) in n.succ]
+            while stack and bad is None:
+                x = stack.pop()
+                if x.id in seen:
+                    continue
+                seen.add(x.id)
+                if x.id in sid:
+                    bad = (n, x)
+                    break
+                stack += [m for (l, m) in x.succ]
+        run.ob("R-LOCK-PAIR", F.q + "#one-hold-per-sequence", bad is None,
+               "transaction_lock is released at line %s while the sequence "
+               "is still running (it is advanced again at line %s): another "
+               "caller's frames can appear between two commands of the "
+               "sequence" % ((bad[0].lineno, bad[1].lineno) if bad else
+                             ("", "")), where(mod, bad[0] if bad else F.fn))
     # cleanup order: nothing that can fail runs before the release
     for F in sorted(fns.values(), key=lambda f: f.q):
         mod = repo.mod(F.cls.mod)
